@@ -153,7 +153,9 @@ let run_case op t =
      | "period" ->
        (* ratio<N,D>::num, ::den of the first type *)
        let g = Z.gcd n1r d1r in
-       (legs [ str_of_z n1; str_of_z d1 ], legs [ str_of_z (Z.div n1r g); str_of_z (Z.div d1r g) ])
+       (* core pairs: + the verdict of the compile-time comparison with std::chrono (always 1 on the model side) *)
+       let ct = if _i < 10 && _j < 10 && _rc = 0 then [ "1" ] else [] in
+       (legs ([ str_of_z n1; str_of_z d1 ] @ ct), legs ([ str_of_z (Z.div n1r g); str_of_z (Z.div d1r g) ] @ ct))
      | "unary" | "tp_unary" ->
        let c = next_z t in
        let one = zi 1 in
@@ -185,14 +187,15 @@ let run_case op t =
        let ms = [ smul_m p.a w2 c x; smul_m p.a w2 c x; sdiv_m p.a w2 c x; smod_m p.a w2 c x ] in
        let nz = not (Z.eqb x Z0) in
        let ss = if nz then [ Z.mul c x; Z.mul c x; Z.quot c x; Z.rem c x ] else [] in
-       (legs (List.map tok_of ms),
-        if pok && nz && fits w1 c && fits w2 x && List.for_all (fits wc) ss then legs (List.map str_of_z ss) else "na")
+       (* the trailing 1: the result types are duration<common_type_t<Rep1, Rep2>, Period> *)
+       (legs (List.map tok_of ms @ [ "1" ]),
+        if pok && nz && fits w1 c && fits w2 x && List.for_all (fits wc) ss then legs (List.map str_of_z ss @ [ "1" ]) else "na")
      | "tp_arith" ->
        let c1 = next_z t in let c2 = next_z t in
        let ms = [ tp_plus_m p.a p.b c1 c2; tp_plus_r_m p.b p.a c2 c1; tp_minus_m p.a p.b c1 c2; tp_diff_m p.a p.b c1 c2 ] in
-       (legs (List.map tok_of ms),
+       (legs (List.map tok_of ms @ [ "1" ]),
         if pok && f p.plus_ok c1 c2 && f p.minus_ok c1 c2 then
-          legs (List.map str_of_z [ f p.plus_s c1 c2; f p.plus_s c1 c2; f p.minus_s c1 c2; f p.minus_s c1 c2 ])
+          legs (List.map str_of_z [ f p.plus_s c1 c2; f p.plus_s c1 c2; f p.minus_s c1 c2; f p.minus_s c1 c2 ] @ [ "1" ])
         else "na")
      | "abs" ->
        let c = next_z t in
@@ -237,7 +240,13 @@ let run_case op t =
      | "d_rnd4" ->
        let x = dec64 (next_z t) in
        (legs [ tok_of (di_cast_m p.a p.b x); tok_of (di_floor_m p.a p.b x); tok_of (di_ceil_m p.a p.b x);
-               tok_of (di_round_m p.a p.b x) ], "na")
+               tok_of (di_round_m p.a p.b x) ],
+        (* C12_float_source_cast_exact / _rounding_exact: a double holding a whole number within the bounds *)
+        match d_int_of x with
+        | Some c when pok && fsrc_ok n1 d1 n2 d2 c ->
+          legs (List.map str_of_z [ cast_spec n1 d1 n2 d2 c; floor_spec n1 d1 n2 d2 c;
+                                    ceil_spec n1 d1 n2 d2 c; round_spec n1 d1 n2 d2 c ])
+        | _ -> "na")
      | "d_arith" ->
        let x = dec64 (next_z t) in
        let y = dec64 (next_z t) in
